@@ -507,3 +507,94 @@ pub fn compiler_tie(rep: &mut Report, n: usize, seed: u64, thorough: bool) {
         }
     }
 }
+
+// ------------------------------------------------------------------ C05 exhaustive small scope
+
+/// All patterns built from a few atoms by nesting quantifiers (every small (min,max,lazy) shape),
+/// the four look-arounds and concatenation up to depth 3, on all haystacks of length ≤ 4 over
+/// {a, b, c}: every search must finish within a small step budget on both executors.
+pub fn c05_scope(rep: &mut Report, seed: u64, thorough: bool) {
+    let mut rng = Rng::new(seed);
+    let atoms = ["a", "ab", "(?:)", "(?:a|)", "(a)", "(a|b)?", "c?", "\\b", "$"];
+    let quants = ["*", "+", "?", "{0,2}", "{2}", "{1,}", "*?", "+?", "{0,2}?", "{2,3}?"];
+    let looks = ["(?=", "(?<=", "(?!", "(?<!"];
+    let wrap = |s: &str| -> String { format!("(?:{})", s) };
+    let mut t0: Vec<String> = atoms.iter().map(|s| s.to_string()).collect();
+    t0.push("\\1".to_string());
+    let level = |prev: &Vec<String>, rng: &mut Rng, keep: usize| -> Vec<String> {
+        let mut out = vec![];
+        for p in prev {
+            for q in quants.iter() {
+                out.push(format!("{}{}", wrap(p), q));
+            }
+            for l in looks.iter() {
+                out.push(format!("{}{})", l, p));
+            }
+            for a in ["a", "c?", "(a)", "b*"] {
+                out.push(format!("{}{}", p, a));
+                out.push(format!("{}{}", a, p));
+            }
+        }
+        if out.len() > keep {
+            // deterministic sample
+            for i in (1..out.len()).rev() {
+                out.swap(i, rng.below(i + 1));
+            }
+            out.truncate(keep);
+        }
+        out
+    };
+    let t1 = level(&t0, &mut rng, usize::MAX);
+    let t2 = level(&t1, &mut rng, if thorough { 40000 } else { 4000 });
+    let t3 = level(&t2, &mut rng, if thorough { 300000 } else { 12000 });
+    let mut hays: Vec<String> = vec![String::new()];
+    let mut cur = vec![String::new()];
+    for _ in 0..(if thorough { 4 } else { 3 }) {
+        let mut nxt = vec![];
+        for p in &cur {
+            for ch in ["a", "b", "c"] {
+                nxt.push(format!("{}{}", p, ch));
+            }
+        }
+        hays.extend(nxt.iter().cloned());
+        cur = nxt;
+    }
+    let budget: u64 = 400_000;
+    for (li, lvl) in [&t1, &t2, &t3].iter().enumerate() {
+        for body in lvl.iter() {
+            for tail in ["d", ""] {
+                // a leading group so that \1 is a valid back-reference
+                let pat = format!("(x)?{}{}", body, tail);
+                let re = match guarded(|| compile(&pat, "", false)) {
+                    Ok(Ok(re)) => re,
+                    Ok(Err(_)) => {
+                        rep.count("rejected");
+                        continue;
+                    }
+                    Err(m) => {
+                        rep.violation("panic:C07", format!("compilation panicked: /{}/: {}", pat, m), pat.clone());
+                        continue;
+                    }
+                };
+                rep.count(&format!("depth{}", li + 1));
+                let some_hays: Vec<&String> = if thorough { hays.iter().collect() } else { (0..6).map(|_| rng.pick(&hays)).collect() };
+                for h in some_hays {
+                    for exec in [Exec::Bt, Exec::Pk] {
+                        regress::verif::fuel::reset(budget);
+                        let r = guarded(std::panic::AssertUnwindSafe(|| find_all(&re, exec, h, 0, 0).0.len()));
+                        let (steps, peak, exhausted) = regress::verif::fuel::report();
+                        regress::verif::fuel::reset(u64::MAX);
+                        rep.case(&format!("{} {} {:?}", pat, h, exec), steps > 20);
+                        rep.count_n("steps", steps);
+                        if exhausted {
+                            rep.violation("impl-vs-spec:C05", format!("{} did not finish within {} steps (peak stack {})", exec.name(), budget, peak), format!("/{}/ on {:?}", pat, h));
+                        }
+                        if let Err(m) = r {
+                            rep.violation("panic:C06", format!("search panicked: {}", m), format!("/{}/ on {:?}", pat, h));
+                        }
+                    }
+                }
+            }
+        }
+    }
+}
